@@ -188,6 +188,10 @@ func (sc scen) body() func() {
 				r2, s2 = render.NewMarchingSquaresQuadtree(6), field2()
 			case "dc2d":
 				r2, s2 = render.NewDualContouring2D(6), field2()
+			case "ms-uniform-flat": // a valid shape whose bounding box has no height (a stroke without thickness)
+				r2, s2 = render.NewMarchingSquaresUniform(6), sdf.Line2D(10, 0)
+			case "ms-quadtree-flat":
+				r2, s2 = render.NewMarchingSquaresQuadtree(6), sdf.Line2D(10, 0)
 			case "ms-uniform-nothing":
 				r2 = render.NewMarchingSquaresUniform(3)
 			case "ms-quadtree-nothing":
@@ -419,6 +423,10 @@ func main() {
 	}
 	for _, rn := range []string{"ms-uniform-nothing", "ms-quadtree-nothing"} {
 		scens = append(scens, scen{Sink: "dxf", Renderer: rn, Renders: 1, Plan: none(), Path: filepath.Join(work, "ok-"+rn+".dxf"), Workers: 1, Bound: -1})
+	}
+	for _, rn := range []string{"ms-uniform-flat", "ms-quadtree-flat"} {
+		scens = append(scens, scen{Sink: "dxf", Renderer: rn, Renders: 2, Plan: none(), Path: filepath.Join(work, "ok-"+rn+".dxf"), Workers: 1, Bound: -1, Then: true},
+			scen{Sink: "svg", Renderer: rn, Renders: 1, Plan: none(), Workers: 1, Bound: -1, Then: true})
 	}
 	// other first steps: exported calls that return an error or are abandoned, then a render of every format
 	for _, first := range []string{"Poly(empty polygon)", "Poly(triangle)", "NewDXF dropped without Save", "two NewDXF drawings open, both saved", "NewSVG dropped without Save", "LoadSTL of a missing file"} {
